@@ -5,7 +5,7 @@ SPEC = {
     'claimed': True,
     'theorems': ['C39_jsonrpc_runs_implies_allowed', 'C39_jsonrpc_gate_sees_dispatched_method',
                  'C39_grpc_runs_implies_allowed_refuted', 'C39_grpc_runs_implies_allowed_partial',
-                 'C39_eth_refuted', 'C39_eth_same_clients_partial', 'C39_eth_guard_exact'],
+                 'C39_eth_same_clients', 'C39_eth_no_list_serves_all'],
     'allowed_axioms': [],
     'shard': 350,
     'rule': 'quick: 15 hand-picked + 45 generated [rpc] configurations (IP list under whitelist / whitlist / both / none; '
@@ -32,8 +32,8 @@ SPEC = {
         'TLS off; JSON keys and values are ASCII',
     ],
     'manifest': {
-        'level_text': 'full for the JSON-RPC gate decision logic; partial for gRPC (unary methods only: streaming methods are ungated — open finding) '
-                      'and for the eth gate (lists under "whitelist" without a competing whitlist star — two open findings)',
+        'level_text': 'full for the JSON-RPC gate decision logic and for the eth gate (every configuration with a non-empty IP list under either key; '
+                      'the two former eth findings are fixed in /repo); partial for gRPC (unary methods only: streaming methods are ungated — open finding)',
         'level_note': 'Decision logic only: address/header/JSON/HTTP2 decoding are oracles observed through the real servers over TCP; '
                       'the model is tied to /repo by per-request correspondence (response class + spy-observed API call).',
         'technique': 'Coq proof (case analysis over the executable gate model against an abstract policy) + in-kernel correspondence check',
